@@ -374,6 +374,10 @@ fn run_probe(base: Instant, c: &ProbeCase) -> ProbeOut {
                 // has the target accepted any packet from its peer yet?
                 accepted_before = p.w.slot(target, if target == CLIENT { p.cch } else { p.sch().unwrap_or(p.cch) })
                     .map_or(false, |s| s.conn.stats().frame_rx.crypto + s.conn.stats().frame_rx.acks > 0);
+                // the attempt the probe is aimed at is over (connection finished and forgotten)
+                if target == CLIENT && !p.w.nodes[CLIENT].conns.contains_key(&p.cch) {
+                    applicable = false;
+                }
                 let peer_seed = p.w.nodes[peer].seed;
                 let mut dgram = |tok: [u8; 16], lead: usize| {
                     let mut d = vec![0x41u8; lead];
@@ -576,7 +580,8 @@ fn run_probe(base: Instant, c: &ProbeCase) -> ProbeOut {
             }
             p.w.step();
         }
-        (p, applicable, accepted_before, token_issued)
+        // a probe scheduled after the end of the run was never sent
+        (p, applicable && injected, accepted_before, token_issued)
     });
     match r {
         Err(e) => ProbeOut { lost_target: vec![], lost_other: vec![], events: 0, done: false, retries_seen: 0, applicable: true, server_packet_accepted_before: false, token_issued: false, viol: vec![("panic".into(), format!("panic: {e}"))] },
